@@ -228,6 +228,21 @@ def check_fixstr(rep, tier):
                 if not ok_d:
                     rep.violation("fixstr/decode-layout", f"FixedSizeString({cap},{lb}-byte LEN).decode(len {n}, stale tail) = {d!r:.100}",
                                   {"kind": "fixstr", "cap": cap, "lb": lb, "n": n})
+            # values longer than the capacity are cut to it: LEN, characters and padding are those of the cut value (also with a capacity below the data area)
+            for ml in (None, max(cap - 2, 0)):
+                Fm = F if ml is None else FixedSizeString(cap, lt, ml)
+                capn = cap if ml is None else ml
+                for extra in (1, 2, capn + 5):
+                    s = "".join(chr(65 + (i * 7) % 26) for i in range(capn + extra))
+                    if capn >= (1 << (8 * lb)):
+                        continue
+                    exp = R.enc(desc, s[:capn])
+                    r = _try(Fm.encode, s)
+                    okl = r[0] == "ok" and bytes(r[1]) == exp
+                    rep.case(("fixstr-overlong", cap, lb, ml, extra), outcome="ok" if okl else "differs")
+                    if not okl:
+                        rep.violation("fixstr/encode-overlong", f"FixedSizeString({cap},{lb}-byte LEN, max_len={ml}).encode({capn + extra} characters) = {str(r)[:80]}, reference (value cut to {capn}) {exp[:24].hex()}…",
+                                      {"kind": "fixstr", "cap": cap, "lb": lb, "n": 0})
             # LEN fields a controller should never hold but a byte pattern can: larger than the capacity, top bit set, all ones.
             # The reference takes min(LEN, capacity) characters (LEN is unsigned); also through the default-argument form the driver uses.
             top = 1 << (8 * lb)
